@@ -229,10 +229,14 @@ def run(tier: str) -> int:
         for key, cls in CL.CLASSES.items():
             pool.setdefault(cls.Plugin.name, [])
             pool[cls.Plugin.name] += [CL.instances(key, fam_rng) for _ in range(6)]
+        from . import geninst
         for ref in list(schemas.keys()):
             cls = schemas._get_unsafe(ref.name, ref.version)
             chain = schemas.parent_path(ref.name, ref.version)[:-1]
-            for objd in pool.get(ref.name, []):
+            gen = []
+            if chain and ref.name != "core.packerinfo":
+                gen = [json.loads(o.json()) for o in geninst.instances(cls, fam_rng, 20 if quick else 200)]
+            for objd in pool.get(ref.name, []) + gen:
                 try:
                     obj = cls.parse_obj(objd)
                 except Exception:
